@@ -214,6 +214,42 @@ class Driver:
                 got, err = self._entries(res)
                 if err:
                     return "%s(%s): %s" % (a, x, err)
+        elif a in ("GetTok", "GetBind"):
+            sh = shard_name(y)
+            if a == "GetTok":
+                ret, o = self._call(lambda: sess.get(T, x, identity_token=sh))
+            elif (self.walkno + self.nstep) % 2:
+                ret, o = self._call(lambda: sess.get(T, x, bind_arguments={"shard_id": sh}))
+            else:
+                ret, o = self._call(lambda: sess.get(T, x, options=[self.hs.set_shard_id(sh)]))
+            if ret == "ok":
+                got, err = self._entries([] if o is None else [o])
+                if err:
+                    return "%s(%s, shard %s): %s" % (a, x, y, err)
+        elif a == "Merge":
+            # a DETACHED copy of the committed row (pk, shard y), loaded by another session, edited, merged into this session
+            sh = shard_name(y)
+
+            def detached():
+                loader = self._make_session(self.P, self.ns)
+                try:
+                    d = loader.execute(self.sa.select(T).where(T.id == x), bind_arguments={"shard_id": sh}).scalars().one()
+                    d.val, d.grp
+                    loader.expunge(d)
+                finally:
+                    loader.close()
+                return d
+            r0, d = self._call(detached)
+            if r0 != "ok" or not self.sa.inspect(d).detached or self._key(d) != (x, y):
+                return "harness: no detached copy of row %r (%s)" % ((x, y), r0)
+            d.val = d.val + 1
+            ret, o = self._call(lambda: sess.merge(d))
+            if ret == "ok":
+                if o is d:
+                    return "Merge(%s, shard %s): merge() returned the detached object itself" % (x, y)
+                got, err = self._entries([o])
+                if err:
+                    return "Merge(%s, shard %s): %s" % (x, y, err)
         elif a == "Get":
             ret, o = self._call(lambda: sess.get(T, x))
             if ret == "ok":
